@@ -272,6 +272,12 @@ func cmdCheck(args []string) int {
 		if r.PreSat != nil {
 			jobs = append(jobs, oblJob{r, r.PreSat, true})
 		}
+		for _, g := range r.PathGuards {
+			if len(g.Tags) > 0 && !containsStr(g.Tags, prop) {
+				continue
+			}
+			jobs = append(jobs, oblJob{r, g, true})
+		}
 		if r.Canary != nil {
 			jobs = append(jobs, oblJob{r, r.Canary, true})
 		}
@@ -459,8 +465,8 @@ func cmdCheck(args []string) int {
 			continue
 		}
 		// vacuity guards
-		for _, g := range []*Obligation{r.PreSat, r.Canary} {
-			if g == nil {
+		for _, g := range append([]*Obligation{r.PreSat, r.Canary}, r.PathGuards...) {
+			if g == nil || g.Status == "" {
 				continue
 			}
 			switch g.Status {
